@@ -33,7 +33,8 @@ def run(tier, replay=None):
     res.distinct = st.get('sessions_with_objects', 0)
     res.exhaustive = True
     res.rule = ('%d base files written by the library (levels {0,1,6,9} x container {16,100,1000} x trailer x final/initial header, 12-30 '
-                'objects of mixed classes incl. empty payloads, objects spanning containers); EVERY prefix length 0..size is opened and read; '
+                'objects of mixed classes incl. empty payloads, objects spanning containers); EVERY prefix length 0..size is opened and read (every third with a '
+                'queue of 1..3 objects and a 64..512-byte buffer, so that workers are blocked when the input ends early); '
                 'expected = objects whose bytes lie wholly inside completely stored containers (independent container walk; an object cut only inside a '
                 'tail the decoder skips rather than reads - union slack - may be delivered or not), the count never decreases with the prefix length, compared '
                 'member by member with the originals, then null, close returns, only the library\'s exception may escape open(); '
@@ -41,7 +42,8 @@ def run(tier, replay=None):
     res.samples = st.get('samples', [])[:6]
     res.extra = dict(base_files=nbase, truncation_points=total, open_threw=st.get('open_threw', 0), objects_delivered=st.get('objects_delivered', 0),
                      distinct_outcomes=st.get('distinct_outcomes', 0), monotonicity_pairs_checked=sum(len(v) for v in per.values()),
-                     delivered_although_cut_in_skipped_tail=st.get('delivered_although_cut_in_skipped_tail', 0))
+                     delivered_although_cut_in_skipped_tail=st.get('delivered_although_cut_in_skipped_tail', 0),
+                     sessions_with_tiny_limits=st.get('sessions_with_tiny_limits', 0))
     if st.get('sessions', 0) < total and not (sh.crashes or sh.hangs or sh.viols):
         res.inconclusive.append('only %d of %d truncation points ran' % (st.get('sessions', 0), total))
     return res.finish()
